@@ -3,7 +3,55 @@
    alphabet, exactly the token types whose pattern matches the word (product exploration of
    Brzozowski-derivative vectors x state sets); aut_equiv_check: two automata accept the same
    token types for every word. Soundness proved once, for all automata and patterns. *)
+From Coq Require Import FMapPositive.
 From Scnr Require Import Base Regex Automaton.
+
+(* ---------- an indexed visited set: buckets in a positive trie, keyed by the state set ---------- *)
+(* Membership in the visited set is by far the most frequent operation of the explorations; a
+   linear scan makes them quadratic in the number of reachable pairs. The index maps a key
+   (computed from the state-set component) to the bucket of elements with that key; membership
+   compares only within the bucket. Soundness (a member of the index built from a list is an
+   element of the list) is all the checkers need. *)
+Section Idx.
+Variable X : Type.
+Variable key : X -> positive.
+Variable xeqb : X -> X -> bool.
+Hypothesis xeqb_eq : forall a b, xeqb a b = true -> a = b.
+
+Definition index := PositiveMap.t (list X).
+Definition bucket (k:positive) (m:index) : list X := match PositiveMap.find k m with Some l => l | None => [] end.
+Definition idx_add (x:X) (m:index) : index := PositiveMap.add (key x) (x :: bucket (key x) m) m.
+Definition idx_mem (x:X) (m:index) : bool := existsb (xeqb x) (bucket (key x) m).
+Definition build_index (l:list X) : index := fold_left (fun m x => idx_add x m) l (PositiveMap.empty (list X)).
+
+Lemma idx_add_sound x m L : (forall k y, In y (bucket k m) -> In y L) -> forall k y, In y (bucket k (idx_add x m)) -> In y (x :: L).
+Proof.
+  intros H k y. unfold idx_add, bucket at 1. destruct (Pos.eq_dec k (key x)) as [->|Hne].
+  - rewrite PositiveMap.gss. intros [<-|Hy]; [left; reflexivity|right; eapply H; eauto].
+  - rewrite PositiveMap.gso by exact Hne. intros Hy. right. eapply H. unfold bucket. exact Hy.
+Qed.
+
+Lemma fold_idx_sound l : forall m L, (forall k y, In y (bucket k m) -> In y L) ->
+  forall k y, In y (bucket k (fold_left (fun m x => idx_add x m) l m)) -> In y (rev l ++ L).
+Proof.
+  induction l as [|x l IH]; intros m L H k y Hy; cbn [fold_left] in Hy; [cbn; eapply H; eauto|].
+  cbn [rev]. rewrite <- app_assoc. cbn [app]. eapply (IH (idx_add x m) (x :: L)); [|exact Hy].
+  apply idx_add_sound. exact H.
+Qed.
+
+Lemma idx_mem_build x l : idx_mem x (build_index l) = true -> In x l.
+Proof.
+  unfold idx_mem, build_index. rewrite existsb_exists. intros (y & Hy & E). apply xeqb_eq in E. subst y.
+  assert (H : In x (rev l ++ [])).
+  { eapply fold_idx_sound; [|exact Hy]. intros k y. unfold bucket. rewrite PositiveMap.gempty. intros []. }
+  rewrite app_nil_r in H. apply in_rev. exact H.
+Qed.
+End Idx.
+
+(* key of a state set: the list read as digits in base 2^16 (injective for ids < 65535; only
+   performance depends on that, soundness never) *)
+Definition key_of (S:list nat) : positive :=
+  fold_left (fun acc q => (acc * 65536 + Pos.of_succ_nat q)%positive) S 1%positive.
 
 Section Check.
 Variable tbll : N -> N -> bool.     (* leaf id -> minterm -> bool, interprets the patterns *)
@@ -60,24 +108,32 @@ Proof. unfold pmem. rewrite existsb_exists. intros (q & I & E). apply pair_eqb_e
 Definition succ (A:dfa) (p:pair) (c:N) : pair := (dvec c (fst p), stepn tblc A (snd p) c).
 Definition consistent (A:dfa) (p:pair) := nlist_eqb (nul_toks (fst p)) (acc_toks A (snd p)).
 
-Fixpoint explore (A:dfa) (ms:list N) (fuel:nat) (todo seen:list pair) : option (list pair) :=
+Definition pkey (p:pair) : positive := key_of (snd p).
+Definition pidx_mem (p:pair) (m:index pair) : bool := idx_mem pair pkey pair_eqb p m.
+
+(* unverified search for the set of reachable pairs; its result is re-validated *)
+Fixpoint explore (A:dfa) (ms:list N) (fuel:nat) (todo seen:list pair) (idx:index pair) : option (list pair) :=
   match fuel with O => None | S f =>
   match todo with [] => Some seen | p::todo =>
-    let '(todo',seen') := fold_left (fun ts c => let q := succ A p c in
-                              if pmem q (snd ts) then ts else (q :: fst ts, q :: snd ts)) ms (todo,seen) in
-    explore A ms f todo' seen' end end.
+    let '(todo',seen',idx') := fold_left (fun ts c => let '(td,sn,ix) := ts in let q := succ A p c in
+                              if pidx_mem q ix then ts else (q :: td, q :: sn, idx_add pair pkey q ix)) ms (todo,seen,idx) in
+    explore A ms f todo' seen' idx' end end.
 
 Definition validate (A:dfa) (ms:list N) (init:pair) (seen:list pair) : bool :=
-  forallb (fun c => pmem (succ A init c) seen) ms
-  && forallb (fun p => forallb (fun c => pmem (succ A p c) seen) ms) seen
+  let idx := build_index pair pkey seen in
+  forallb (fun c => pidx_mem (succ A init c) idx) ms
+  && forallb (fun p => forallb (fun c => pidx_mem (succ A p c) idx) ms) seen
   && forallb (consistent A) seen.
 
 Definition equiv_check (A:dfa) (ms:list N) (rs:vec) (fuel:nat) : bool :=
   let init : pair := (rs, [0]) in
   let first := map (succ A init) ms in
-  match explore A ms fuel first first with
+  match explore A ms fuel first first (build_index pair pkey first) with
   | Some seen => validate A ms init seen
   | None => false end.
+
+Lemma pidx_mem_in p l : pidx_mem p (build_index pair pkey l) = true -> In p l.
+Proof. apply idx_mem_build. apply pair_eqb_eq. Qed.
 
 (* ---------- soundness ---------- *)
 Definition pair_after (A:dfa) (p:pair) (w:list N) : pair := (dvec_w w (fst p), runn tblc A (snd p) w).
@@ -86,14 +142,14 @@ Lemma pair_after_cons A p c w : pair_after A p (c::w) = pair_after A (succ A p c
 Proof. reflexivity. Qed.
 
 Lemma closed_reach A ms seen :
-  forallb (fun p => forallb (fun c => pmem (succ A p c) seen) ms) seen = true ->
+  forallb (fun p => forallb (fun c => pidx_mem (succ A p c) (build_index pair pkey seen)) ms) seen = true ->
   forall w p, In p seen -> Forall (fun c => In c ms) w -> In (pair_after A p w) seen.
 Proof.
   intros Hc. induction w as [|c w IH]; intros p Hp Hw.
   - destruct p; exact Hp.
   - rewrite pair_after_cons. inversion Hw; subst. apply IH; auto.
     rewrite forallb_forall in Hc. specialize (Hc p Hp). rewrite forallb_forall in Hc.
-    apply pmem_in. apply Hc. auto.
+    apply pidx_mem_in. apply Hc. auto.
 Qed.
 
 Lemma dvec_w_spec w : forall v t, (exists r, In (t,r) (dvec_w w v) /\ mt tbll r []) <-> (exists r, In (t,r) v /\ mt tbll r w).
@@ -129,12 +185,12 @@ Theorem equiv_check_sound A ms rs fuel :
   forall w, w <> [] -> Forall (fun c => In c ms) w ->
   forall t, accepts_tok tblc A w t <-> exists r, In (t,r) rs /\ mt tbll r w.
 Proof.
-  unfold equiv_check. destruct (explore _ _ _ _ _) as [seen|]; [|discriminate].
+  unfold equiv_check. destruct (explore _ _ _ _ _ _) as [seen|]; [|discriminate].
   unfold validate. intros H. apply andb_true_iff in H as [H Hcons]. apply andb_true_iff in H as [Hinit Hclosed].
   intros w Hne Hw t. destruct w as [|c w]; [congruence|]. inversion Hw; subst.
   assert (I: In (pair_after A (rs,[0]) (c::w)) seen).
   { rewrite pair_after_cons. apply closed_reach with (ms:=ms); auto.
-    rewrite forallb_forall in Hinit. apply pmem_in. apply Hinit; auto. }
+    rewrite forallb_forall in Hinit. apply pidx_mem_in. apply Hinit; auto. }
   rewrite forallb_forall in Hcons. specialize (Hcons _ I). unfold consistent in Hcons.
   apply nlist_eqb_eq in Hcons. unfold pair_after in Hcons. cbn [fst snd] in Hcons.
   rewrite accepts_tok_runn. rewrite <- acc_toks_spec, <- Hcons, nul_toks_spec. apply dvec_w_spec.
@@ -155,28 +211,35 @@ Proof. unfold smem. rewrite existsb_exists. intros (q & I & E). apply spair_eqb_
 Definition ssucc (A B:dfa) (p:spair) (c:N) : spair := (stepn tblc A (fst p) c, stepn tblc B (snd p) c).
 Definition sconsistent (A B:dfa) (p:spair) := nlist_eqb (acc_toks A (fst p)) (acc_toks B (snd p)).
 
-Fixpoint sexplore (A B:dfa) (ms:list N) (fuel:nat) (todo seen:list spair) : option (list spair) :=
+Definition skey (p:spair) : positive := key_of (fst p).
+Definition sidx_mem (p:spair) (m:index spair) : bool := idx_mem spair skey spair_eqb p m.
+
+Fixpoint sexplore (A B:dfa) (ms:list N) (fuel:nat) (todo seen:list spair) (idx:index spair) : option (list spair) :=
   match fuel with O => None | S f =>
   match todo with [] => Some seen | p::todo =>
-    let '(todo',seen') := fold_left (fun ts c => let q := ssucc A B p c in
-                              if smem q (snd ts) then ts else (q :: fst ts, q :: snd ts)) ms (todo,seen) in
-    sexplore A B ms f todo' seen' end end.
+    let '(todo',seen',idx') := fold_left (fun ts c => let '(td,sn,ix) := ts in let q := ssucc A B p c in
+                              if sidx_mem q ix then ts else (q :: td, q :: sn, idx_add spair skey q ix)) ms (todo,seen,idx) in
+    sexplore A B ms f todo' seen' idx' end end.
 
 Definition svalidate (A B:dfa) (ms:list N) (init:spair) (seen:list spair) : bool :=
-  smem init seen
-  && forallb (fun p => forallb (fun c => smem (ssucc A B p c) seen) ms) seen
+  let idx := build_index spair skey seen in
+  sidx_mem init idx
+  && forallb (fun p => forallb (fun c => sidx_mem (ssucc A B p c) idx) ms) seen
   && forallb (sconsistent A B) seen.
 
 Definition aut_equiv_check (A B:dfa) (ms:list N) (fuel:nat) : bool :=
   let init : spair := ([0], [0]) in
-  match sexplore A B ms fuel [init] [init] with
+  match sexplore A B ms fuel [init] [init] (build_index spair skey [init]) with
   | Some seen => svalidate A B ms init seen
   | None => false end.
+
+Lemma sidx_mem_in p l : sidx_mem p (build_index spair skey l) = true -> In p l.
+Proof. apply idx_mem_build. apply spair_eqb_eq. Qed.
 
 Definition spair_after (A B:dfa) (p:spair) (w:list N) : spair := (runn tblc A (fst p) w, runn tblc B (snd p) w).
 
 Lemma sclosed_reach A B ms seen :
-  forallb (fun p => forallb (fun c => smem (ssucc A B p c) seen) ms) seen = true ->
+  forallb (fun p => forallb (fun c => sidx_mem (ssucc A B p c) (build_index spair skey seen)) ms) seen = true ->
   forall w p, In p seen -> Forall (fun c => In c ms) w -> In (spair_after A B p w) seen.
 Proof.
   intros Hc. induction w as [|c w IH]; intros p Hp Hw.
@@ -184,7 +247,7 @@ Proof.
   - change (spair_after A B p (c :: w)) with (spair_after A B (ssucc A B p c) w).
     inversion Hw; subst. apply IH; auto.
     rewrite forallb_forall in Hc. specialize (Hc p Hp). rewrite forallb_forall in Hc.
-    apply smem_in. apply Hc. auto.
+    apply sidx_mem_in. apply Hc. auto.
 Qed.
 
 Theorem aut_equiv_check_sound A B ms fuel :
@@ -192,9 +255,9 @@ Theorem aut_equiv_check_sound A B ms fuel :
   forall w, Forall (fun c => In c ms) w ->
   forall t, accepts_tok tblc A w t <-> accepts_tok tblc B w t.
 Proof.
-  unfold aut_equiv_check. destruct (sexplore _ _ _ _ _ _) as [seen|]; [|discriminate].
+  unfold aut_equiv_check. destruct (sexplore _ _ _ _ _ _ _) as [seen|]; [|discriminate].
   unfold svalidate. intros H. apply andb_true_iff in H as [H Hcons]. apply andb_true_iff in H as [Hinit Hclosed].
-  intros w Hw t. apply smem_in in Hinit.
+  intros w Hw t. apply sidx_mem_in in Hinit.
   pose proof (sclosed_reach A B ms seen Hclosed w _ Hinit Hw) as I.
   rewrite forallb_forall in Hcons. specialize (Hcons _ I). unfold sconsistent in Hcons.
   apply nlist_eqb_eq in Hcons. unfold spair_after in Hcons. cbn [fst snd] in Hcons.
